@@ -566,7 +566,11 @@ func (g *dgen) method(svc *spec.Service, idx int) *spec.Method {
 				name += "y"
 			}
 			var f *spec.Attr
-			switch t.Pick("rloc", 5, 2, 1) {
+			rl := t.Pick("rloc", 5, 2, 1)
+			if g.focus == "dir" && rl == 0 && t.Draw("rloc-dir", 2) == 0 {
+				rl = 2 // generated documents list headers and cookies: more of them
+			}
+			switch rl {
 			case 1:
 				f = g.prim(LocHeader)
 				f.Name = name
